@@ -190,6 +190,8 @@ struct World<'a> {
     ssrc_map: BTreeMap<i64, u32>,
     fillers: Vec<u32>,
     store: HashMap<(bool, i64, i64), Sent>, // (is_rtcp, model ssrc, model idx)
+    wire_diverged: bool,
+    rtcp_wire: HashMap<i64, Vec<u32>>,      // SRTCP indices the rustrtc sender used so far, per model ssrc
     small: bool,
     few: bool,
     out: Vec<Value>,
@@ -257,6 +259,8 @@ impl<'a> World<'a> {
             ssrc_map: BTreeMap::new(),
             fillers: Vec::new(),
             store: HashMap::new(),
+            wire_diverged: false,
+            rtcp_wire: HashMap::new(),
             small,
             few,
             out: Vec::new(),
@@ -300,7 +304,12 @@ impl<'a> World<'a> {
     }
 
     /// Genuine RTP packet from the rustrtc sender (and, if it is in its domain, from the reference sender).
-    fn protect_rtp(&mut self, k: i64, i: i64, rng: &mut Rng, wher: &str) {
+    fn protect_rtp(&mut self, k: i64, i: i64, wire: i64, rng: &mut Rng, wher: &str) {
+        if wire != i {
+            // only in models generated with the open deviation EvictLosesState: the sender context lost its position;
+            // from here on the reference worlds (whose sender / receivers do not forget) are off the model
+            self.wire_diverged = true;
+        }
         let ssrc = self.ssrc(k, rng);
         let seq = self.emb.seq(i);
         let real_idx = self.emb.idx(i);
@@ -321,7 +330,7 @@ impl<'a> World<'a> {
                 match rtx.protect_rtp(&plain, ssrc, real_idx) {
                     Ok(b) => {
                         self.evals += 1;
-                        if b != x1 {
+                        if b != x1 && !self.wire_diverged {
                             self.diverge("EXT", "WireEqual", wher, "ref2r", "rtp", "", json!({"idx": i, "len_rustrtc": x1.len(), "len_ref": b.len()}));
                         }
                         x3 = Some(b);
@@ -335,7 +344,10 @@ impl<'a> World<'a> {
         self.store.insert((false, k, i), Sent { plain_rtp: Some(pkt), plain_bytes: plain, x1, x3, real_idx, shape_ok });
     }
 
-    fn protect_rtcp(&mut self, k: i64, i: i64, rng: &mut Rng, wher: &str) {
+    fn protect_rtcp(&mut self, k: i64, i: i64, wire: i64, rng: &mut Rng, wher: &str) {
+        if wire != i {
+            self.wire_diverged = true;
+        }
         let ssrc = self.ssrc(k, rng);
         let plain = gen_rtcp(rng, ssrc, self.small);
         let mut x1 = plain.clone();
@@ -346,16 +358,21 @@ impl<'a> World<'a> {
         }
         // the SRTCP index the sender used (internal: EXT)
         if let Some((_, _, ri)) = self.tx.verif_tx_state(ssrc) {
-            if ri as i64 != i {
-                self.diverge("EXT", "RtcpSenderIndex", wher, "rr", "rtcp", "", json!({"model": i, "observed": ri}));
+            if ri as i64 != wire {
+                self.diverge("EXT", "RtcpSenderIndex", wher, "rr", "rtcp", "", json!({"model": wire, "observed": ri}));
             }
+            // the same (key, SSRC, index) must never protect two packets (keystream / nonce reuse)
+            if self.rtcp_wire.get(&k).map_or(false, |v| v.contains(&ri)) {
+                self.diverge("EXT", "SrtcpIndexFresh", wher, "rr", "rtcp", "", json!({"ssrc": k, "index": ri, "ordinal": i}));
+            }
+            self.rtcp_wire.entry(k).or_default().push(ri);
         }
         let mut x3 = None;
         if let Some(rtx) = self.rtx.as_mut() {
             match rtx.protect_rtcp(&plain) {
                 Ok(b) => {
                     self.evals += 1;
-                    if b != x1 {
+                    if b != x1 && wire == i && !self.wire_diverged {
                         self.diverge("EXT", "WireEqual", wher, "ref2r", "rtcp", "", json!({"idx": i, "len_rustrtc": x1.len(), "len_ref": b.len()}));
                     }
                     x3 = Some(b);
@@ -375,7 +392,10 @@ impl<'a> World<'a> {
         let (x1, x3, plain, orig, real_idx, shape_ok) =
             (s.x1.clone(), s.x3.clone(), s.plain_bytes.clone(), s.plain_rtp.clone(), s.real_idx, s.shape_ok);
         let ssrc = self.ssrc_map[&k];
-        let demand = must && !replay;
+        // `must && !acc` only arises in models generated with the open deviation EvictLosesState: the sender context
+        // was evicted and put another index on the wire than the application meant (KF-C04-2, sender side)
+        let tx_lost = must && !acc && !replay;
+        let demand = must && !replay && acc;
 
         // world rr: rustrtc -> rustrtc
         self.evals += 1;
@@ -392,6 +412,8 @@ impl<'a> World<'a> {
         };
         if err.starts_with("PANIC") {
             self.diverge("C04", "NoPanic", wher, "rr", proto, "", json!({"ssrc": k, "idx": i, "error": err}));
+        } else if tx_lost && !ok {
+            self.diverge("C04", "NoLossByEviction", wher, "rr", proto, "", json!({"field": "idle_tx_context_evicted", "ssrc": k, "idx": i, "error": err}));
         } else if demand && !ok {
             self.diverge("C04", "IndexAgreement", wher, "rr", proto, "", json!({"ssrc": k, "idx": i, "error": err, "model_acc": acc}));
         } else if ok && !same {
@@ -406,7 +428,7 @@ impl<'a> World<'a> {
         }
 
         // world r2ref: rustrtc -> reference
-        if demand && self.rrx.is_some() {
+        if demand && self.rrx.is_some() && !self.wire_diverged {
             let rrx = self.rrx.as_mut().unwrap();
             if rtcp || (shape_ok && rrx.in_domain(ssrc, real_idx)) {
                 self.ref_checked += 1;
@@ -440,7 +462,7 @@ impl<'a> World<'a> {
                 Err(e) => (false, true, e),
             }
         };
-        if from_ref {
+        if from_ref && !self.wire_diverged {
             if demand && !ok {
                 self.diverge("C04", "InteropIn", wher, "ref2r", proto, "", json!({"ssrc": k, "idx": i, "error": err, "wire_len": bytes.len(), "plain_len": plain.len()}));
             } else if ok && !same {
@@ -699,6 +721,10 @@ impl<'a> World<'a> {
                 panic!("cannot back-date last_used by 61 s (uptime too short)");
             }
             self.rx_c.verif_backdate(s, 61);
+            // the sender's contexts age too (time passes for both ends)
+            if self.tx.verif_tx_state(s).is_some() && !self.tx.verif_backdate_tx(s, 61) {
+                panic!("cannot back-date last_used by 61 s (uptime too short)");
+            }
         }
     }
 
@@ -747,7 +773,7 @@ fn step_of(v: &Value) -> Step {
 fn run_step(w: &mut World, s: &Step, rng: &mut Rng, wher: &str) {
     match s.op.as_str() {
         "protect" => {
-            if s.rtcp { w.protect_rtcp(s.k, s.idx, rng, wher) } else { w.protect_rtp(s.k, s.idx, rng, wher) }
+            if s.rtcp { w.protect_rtcp(s.k, s.idx, if s.x >= 0 { s.x } else { s.idx }, rng, wher) } else { w.protect_rtp(s.k, s.idx, if s.x >= 0 { s.x } else { s.idx }, rng, wher) }
         }
         "deliver" => w.deliver(s.rtcp, s.k, s.idx, s.acc, s.must, s.replay, s.imust, wher),
         "forge" => w.forge(s.rtcp, &s.kind, s.k, s.idx, s.x, s.rep, rng, wher),
@@ -897,13 +923,13 @@ fn run_edge(edge: &Value, lineno: u64, pname: &str, use_ref: bool, few: bool, sm
     // sender contexts against the model (internal values: EXT)
     if let Some(rows) = exp["tx"].as_array() {
         for row in rows {
-            let (k, hi, ri) = (row[0].as_i64().unwrap(), row[1].as_i64().unwrap(), row[2].as_i64().unwrap());
+            let k = row[0].as_i64().unwrap();
             let Some(real) = w.ssrc_map.get(&k).copied() else { continue };
-            let m: St = if hi >= 0 {
-                let r = w.emb.idx(hi);
-                ((r >> 16) as u32, Some((r & 0xFFFF) as u16), ri as u32)
+            let m: St = if row[1].as_i64() == Some(1) {
+                let last = row[3].as_i64().unwrap();
+                (w.emb.model_roc(row[2].as_i64().unwrap()), if last < 0 { None } else { Some(w.emb.seq_only(last)) }, row[4].as_i64().unwrap() as u32)
             } else {
-                (0, None, ri as u32)
+                ABSENT
             };
             let o = w.tx.verif_tx_state(real).unwrap_or(ABSENT);
             w.evals += 1;
@@ -933,7 +959,8 @@ fn run_edge(edge: &Value, lineno: u64, pname: &str, use_ref: bool, few: bool, sm
         } else if would != after {
             w.diverge("EXT", "Estimate", "probe", "rr", proto, &act.kind, json!({"packet": [row[0], k, i], "model_would": would, "after": after}));
         } else if row.get(5).and_then(|v| v.as_i64()) == Some(1) && !must && !after && !w_got(edge, rtcp, k, i) {
-            w.diverge("C04", "NoLossByEviction", "probe", "rr", proto, &act.kind, json!({"field": "idle_context_evicted", "packet": [row[0], k, i], "op": act.op}));
+            let field = if row.get(6).and_then(|v| v.as_i64()) == Some(0) { "idle_tx_context_evicted" } else { "idle_context_evicted" };
+            w.diverge("C04", "NoLossByEviction", "probe", "rr", proto, &act.kind, json!({"field": field, "packet": [row[0], k, i], "op": act.op}));
         }
     }
     for (k, i, x, _pkt) in next_pkts.iter() {
@@ -953,70 +980,9 @@ fn run_edge(edge: &Value, lineno: u64, pname: &str, use_ref: bool, few: bool, sm
     (w.out, stats)
 }
 
-/// Sender-side observation (EXT, not a listed property): with more than 32 transmit contexts, a stream that was
-/// silent for 60 s loses its transmit context; when it resumes, its rollover counter and SRTCP index restart.
-/// usage: srtp txprobe <out.ndjson>
-fn txprobe(out_path: &str) {
-    let mut out = NdjsonOut::create(out_path);
-    let mut rng = Rng::from_env();
-    for pname in PROFILES {
-        let key = rng.bytes(16);
-        let salt = rng.bytes(if pname == "gcm" { 12 } else { 14 });
-        let p = profile_of(pname);
-        let mut tx = new_session(p, &key, &salt);
-        let mut rx = new_session(p, &key, &salt);
-        let victim = 0x5151_0001u32;
-        let mut send = |tx: &mut SrtpSession, rx: &mut SrtpSession, ssrc: u32, seq: u16, rng: &mut Rng| -> bool {
-            let pkt = gen_rtp(rng, ssrc, seq, true);
-            let mut x = vec![0u8; tx.protected_rtp_len(&pkt)];
-            tx.protect_rtp(&pkt, &mut x).expect("protect");
-            unprotect_rtp(rx, &x).is_ok()
-        };
-        let mut ok_before = true;
-        for seq in [65534u16, 65535, 0, 1] {
-            ok_before &= send(&mut tx, &mut rx, victim, seq, &mut rng);
-        }
-        let plain1 = gen_rtcp(&mut rng, victim, true);
-        let mut y1 = plain1.clone();
-        tx.protect_rtcp(&mut y1).expect("protect rtcp");
-        let tx_before = tx.verif_tx_state(victim);
-        for i in 0..REAL_WATERMARK as u32 {
-            send(&mut tx, &mut rx, 0x7000_0000 + i, 100, &mut rng);
-        }
-        let aged = tx.verif_backdate_tx(victim, 61);
-        send(&mut tx, &mut rx, 0x7000_0000, 101, &mut rng); // any other stream's packet runs the eviction
-        let tx_evicted = tx.verif_tx_state(victim).is_none();
-        let ok_after = send(&mut tx, &mut rx, victim, 2, &mut rng);
-        let tx_after = tx.verif_tx_state(victim);
-        let plain2 = gen_rtcp(&mut rng, victim, true);
-        let mut y2 = plain2.clone();
-        tx.protect_rtcp(&mut y2).expect("protect rtcp");
-        let idx_of = |y: &[u8], pl: usize| {
-            let io = if pname == "gcm" { pl + 16 } else { pl };
-            u32::from_be_bytes([y[io], y[io + 1], y[io + 2], y[io + 3]]) & 0x7FFF_FFFF
-        };
-        out.push(&json!({"type": "txprobe", "profile": pname, "aged": aged, "accepted_before_idle": ok_before,
-            "tx_state_before": tx_before.map(|s| st_json(&s)), "tx_context_evicted": tx_evicted,
-            "tx_state_after": tx_after.map(|s| st_json(&s)), "accepted_after_idle": ok_after,
-            "srtcp_index_first": idx_of(&y1, plain1.len()), "srtcp_index_after_idle": idx_of(&y2, plain2.len())}));
-        if ok_before && !ok_after {
-            out.push(&json!({"type": "divergence", "prop": "C04", "rule": "NoLossByEviction", "where": "txprobe", "world": "tx",
-                "proto": "rtp", "kind": "", "profile": pname, "pclass": if pname == "gcm" { "aead" } else { "hmac" },
-                "detail": {"field": "idle_tx_context_evicted", "tx_state_before": tx_before.map(|s| st_json(&s)),
-                           "tx_state_after": tx_after.map(|s| st_json(&s)),
-                           "srtcp_index_reused": idx_of(&y1, plain1.len()) == idx_of(&y2, plain2.len())}}));
-        }
-    }
-    out.finish();
-}
-
 fn main() {
     quiet_panics();
     let args: Vec<String> = std::env::args().collect();
-    if args.len() == 3 && args[1] == "txprobe" {
-        txprobe(&args[2]);
-        return;
-    }
     if args.len() < 3 {
         eprintln!("usage: srtp <edges.ndjson> <out.ndjson> [--shard i/n] [--bits few|all] [--profiles a,b] [--noref]");
         std::process::exit(2);
